@@ -196,14 +196,29 @@ theorem specBody_root {R : NodeId → NodeId → Prop} {e₁ e₂ : Spec.Env} (h
     unfold Inv.kwList
     rw [hkref, hkdyn, kwAllOf_iso hsub hn.allOf j, kwAnyOf_iso hsub hn.anyOf j, kwOneOf_iso hsub hn.oneOf j,
       kwNot_iso hsub hn.not j, kwIf_iso hsub hn.if_ hn.then_ hn.else_ j, kwItems_iso hsub hd hn j,
-      kwContains_iso hsub hn.contains (scal_minContains hn.scal) (scal_maxContains hn.scal) j,
+      kwContains_iso hsub (n₁ := Spec.vocab e₁.draft n₁) (n₂ := Spec.vocab e₂.draft n₂) hn.contains
+        (by rw [hd]; simp only [Spec.vocab, scal_minContains hn.scal])
+        (by rw [hd]; simp only [Spec.vocab, scal_maxContains hn.scal]) j,
       kwProps_iso hsub hre hn.properties hn.patternProperties hn.additionalProperties j,
       kwPropertyNames_iso hsub hn.propertyNames j,
       kwDependentSchemas_iso hsub hd hn.dependentSchemas hn.dependencySchemas j]
-  have hui : Spec.kwUnevaluatedItems (rec₁ (sc₁ ++ [s₁])) n₁ j = Spec.kwUnevaluatedItems (rec₂ (sc₂ ++ [s₂])) n₂ j :=
-    funext fun ev => kwUnevaluatedItems_iso hsub hn.unevaluatedItems j ev
-  have hup : Spec.kwUnevaluatedProps (rec₁ (sc₁ ++ [s₁])) n₁ j = Spec.kwUnevaluatedProps (rec₂ (sc₂ ++ [s₂])) n₂ j :=
-    funext fun ev => kwUnevaluatedProps_iso hsub hn.unevaluatedProperties j ev
+  have hvi : OptRel R (Spec.vocab e₁.draft n₁).unevaluatedItems (Spec.vocab e₂.draft n₂).unevaluatedItems := by
+    rw [hd]
+    cases e₂.draft
+    · trivial
+    · exact hn.unevaluatedItems
+  have hvp : OptRel R (Spec.vocab e₁.draft n₁).unevaluatedProperties
+      (Spec.vocab e₂.draft n₂).unevaluatedProperties := by
+    rw [hd]
+    cases e₂.draft
+    · trivial
+    · exact hn.unevaluatedProperties
+  have hui : Spec.kwUnevaluatedItems (rec₁ (sc₁ ++ [s₁])) (Spec.vocab e₁.draft n₁) j =
+      Spec.kwUnevaluatedItems (rec₂ (sc₂ ++ [s₂])) (Spec.vocab e₂.draft n₂) j :=
+    funext fun ev => kwUnevaluatedItems_iso hsub hvi j ev
+  have hup : Spec.kwUnevaluatedProps (rec₁ (sc₁ ++ [s₁])) (Spec.vocab e₁.draft n₁) j =
+      Spec.kwUnevaluatedProps (rec₂ (sc₂ ++ [s₂])) (Spec.vocab e₂.draft n₂) j :=
+    funext fun ev => kwUnevaluatedProps_iso hsub hvp j ev
   unfold Inv.specBody
   rw [hkl, hui, hup, hkref, assertsOf_iso hd hre hn.scal j, hd, href]
 
@@ -252,9 +267,11 @@ theorem specBody_tableNull {env : Env} {rec : Rec} {sc : List NodeId} {s : NodeI
     Valid (Inv.specBody env rec sc s j (Go.tableNull b n)) := by
   have hk : Inv.kwList env rec sc s j (Go.tableNull b n) = Inv.kwList env rec sc s j n := by
     rw [tableNull_eq]; rfl
-  have hui : kwUnevaluatedItems (rec (sc ++ [s])) (Go.tableNull b n) j = kwUnevaluatedItems (rec (sc ++ [s])) n j := by
+  have hui : kwUnevaluatedItems (rec (sc ++ [s])) (Spec.vocab env.draft (Go.tableNull b n)) j =
+      kwUnevaluatedItems (rec (sc ++ [s])) (Spec.vocab env.draft n) j := by
     rw [tableNull_eq]; rfl
-  have hup : kwUnevaluatedProps (rec (sc ++ [s])) (Go.tableNull b n) j = kwUnevaluatedProps (rec (sc ++ [s])) n j := by
+  have hup : kwUnevaluatedProps (rec (sc ++ [s])) (Spec.vocab env.draft (Go.tableNull b n)) j =
+      kwUnevaluatedProps (rec (sc ++ [s])) (Spec.vocab env.draft n) j := by
     rw [tableNull_eq]; rfl
   have href : (Go.tableNull b n).ref = n.ref := by rw [tableNull_eq]
   have hkr : kwRef env (rec (sc ++ [s])) s (Go.tableNull b n) j = kwRef env (rec (sc ++ [s])) s n j := by
